@@ -65,6 +65,10 @@ func aliasingConfig(seed uint64, i int, root string) (*gen.Case, error) {
 		&gen.Content{Type: "dir", Dst: "/var/lib/" + s.Name + "/alias-dir", FI: &gen.FI{Owner: "daemon"}},
 		&gen.Content{Type: "symlink", Src: filepath.Join(root, host.Rel), Dst: "/usr/lib/" + s.Name + "/alias-link", FI: &gen.FI{Group: "adm"}},
 		&gen.Content{Type: "ghost", Dst: "/var/log/" + s.Name + ".log", FI: &gen.FI{Owner: "syslog"}},
+		// everything but the mode is declared: only the mode default is left to fill in
+		&gen.Content{Type: "dir", Dst: "/var/lib/" + s.Name + "/alias-dir2", FI: &gen.FI{Owner: "daemon", Group: "daemon", MTime: 1222222222}},
+		&gen.Content{Type: "symlink", Src: "/nonexistent-verif/alias", Dst: "/usr/lib/" + s.Name + "/alias-link2", FI: &gen.FI{Owner: "root", Group: "adm", MTime: 1222222223}},
+		&gen.Content{Type: "ghost", Dst: "/var/log/" + s.Name + "-2.log", FI: &gen.FI{Owner: "syslog", Group: "adm", MTime: 1222222224}},
 		&gen.Content{Type: "config", Src: filepath.Join(root, host.Rel), Dst: "/etc/" + s.Name + "/alias.conf", FI: &gen.FI{Owner: "root", Group: "adm"}},
 	)
 	// per-format umasks: a mode frozen by one format would show up in another
@@ -83,12 +87,12 @@ func aliasingConfig(seed uint64, i int, root string) (*gen.Case, error) {
 		&gen.Content{Type: "config|noreplace", Src: filepath.Join(root, host.Rel), Dst: "/etc/" + s.Name + "/noreplace.conf"},
 		&gen.Content{Type: "config|missingok", Src: filepath.Join(root, host.Rel), Dst: "/etc/" + s.Name + "/missingok.conf"},
 	)
-	s.Depends = []string{"zeta", "alpha", "mid >= 1.0", "alpha2", "zeta"} // unsorted, with a duplicate
-	s.Provides = []string{"prov-b", "prov-a", "prov-b"}
-	s.Conflicts = []string{"c2", "c1", "c2"}
+	s.Depends = []string{"zeta", "zeta", "alpha", "mid >= 1.0", "alpha2", "alpha"} // unsorted, with duplicates that are not last
+	s.Provides = []string{"prov-b", "prov-b", "prov-a", "prov-c"}
+	s.Conflicts = []string{"c2", "c2", "c1", "c3"}
 	s.Recommends = []string{"r9", "r1"}
 	s.Suggests = []string{"s9", "s1"}
-	s.Replaces = []string{"old-z", "old-a", "old-z"}
+	s.Replaces = []string{"old-z", "old-z", "old-a", "old-b"}
 	for k := 0; k < 4; k++ {
 		s.Deb.Fields.Set(fmt.Sprintf("X-Alias-%d", k), "v")
 		s.IPK.Fields.Set(fmt.Sprintf("X-Alias-%d", k), "v")
@@ -105,34 +109,58 @@ func aliasingConfig(seed uint64, i int, root string) (*gen.Case, error) {
 }
 
 type c11Env struct {
+	// mutate is applied to every freshly parsed configuration: settings a
+	// library caller can hand to nfpm but the YAML parser would have normalised
+	// (blank items inside relation lists)
+	mutate   func(cfg *nfpm.Config)
 	yaml     string
 	baseline map[string][]byte
 	names    map[string]string
 	snap     map[string]*nfpm.Info
 }
 
-func c11Baseline(run *ev.Run, y string) *c11Env {
-	e := &c11Env{yaml: y, baseline: map[string][]byte{}, names: map[string]string{}, snap: map[string]*nfpm.Info{}}
+func (e *c11Env) parse() (nfpm.Config, error) {
+	cfg, err := parseYAML(e.yaml, nil)
+	if err == nil && e.mutate != nil {
+		e.mutate(&cfg)
+	}
+	return cfg, err
+}
+
+func (e *c11Env) build(f string) buildResult {
+	cfg, err := e.parse()
+	if err != nil {
+		return buildResult{Err: err}
+	}
+	info, err := infoFor(&cfg, f)
+	if err != nil {
+		return buildResult{Err: err}
+	}
+	return packageInfo(f, info)
+}
+
+func c11Baseline(run *ev.Run, y string, mutate func(cfg *nfpm.Config)) *c11Env {
+	e := &c11Env{yaml: y, mutate: mutate, baseline: map[string][]byte{}, names: map[string]string{}, snap: map[string]*nfpm.Info{}}
 	for _, f := range formats {
-		res := buildYAML(y, f)
+		res := e.build(f)
 		if res.Err != nil || res.Panic != "" {
 			run.Violate("C11/"+f+"/build-error", map[string]any{"error": fmt.Sprint(res.Err, ev.Short(res.Panic, 300))})
 			return nil
 		}
 		e.baseline[f] = res.Bytes
 		// determinism is a precondition of the byte comparison
-		if r2 := buildYAML(y, f); !bytes.Equal(r2.Bytes, res.Bytes) {
+		if r2 := e.build(f); !bytes.Equal(r2.Bytes, res.Bytes) {
 			run.Inconclusive("baseline build of " + f + " is not deterministic; C11 cannot compare bytes")
 			return nil
 		}
-		cfg, _ := parseYAML(y, nil)
+		cfg, _ := e.parse()
 		info, err := cfg.Get(f)
 		if err != nil {
 			run.Inconclusive(err.Error())
 			return nil
 		}
 		e.snap[f] = info
-		cfg2, _ := parseYAML(y, nil)
+		cfg2, _ := e.parse()
 		i2, _ := infoFor(&cfg2, f)
 		p, _ := nfpm.Get(f)
 		e.names[f] = p.ConventionalFileName(i2)
@@ -146,7 +174,7 @@ func c11Baseline(run *ev.Run, y string) *c11Env {
 // tool and goreleaser do); otherwise every operation obtains fresh settings.
 func runSequence(run *ev.Run, e *c11Env, ci int, seq []string, ops, compared *int64, reuseNamed bool) {
 	named := map[string]*nfpm.Info{}
-	cfg, err := parseYAML(e.yaml, nil)
+	cfg, err := e.parse()
 	if err != nil {
 		run.Inconclusive(err.Error())
 		return
@@ -362,7 +390,14 @@ func c11(run *ev.Run, tier string) {
 		if ci == 0 {
 			run.Sample(map[string]any{"config": ci, "yaml": ev.Short(y, 2500)})
 		}
-		e := c11Baseline(run, y)
+		var mutate func(cfg *nfpm.Config)
+		if ci%3 == 1 {
+			mutate = func(cfg *nfpm.Config) {
+				cfg.Provides = []string{"prov-b", "  ", "prov-a", "", "prov-c"}
+				cfg.Deb.Predepends = []string{"pd1", " ", "pd2"}
+			}
+		}
+		e := c11Baseline(run, y, mutate)
 		if e == nil {
 			removeWorkDir(root)
 			continue
